@@ -156,12 +156,19 @@ Section PVSS.
     | Some gc => ROk (fold_left (enc_batch_step H gc) (combine X (combine sH enc)) ([], []))
     end.
 
-  (* DecShare: verify, V = x^-1 * S.V, proof for (G = base, V, x); [v] = picked scalar *)
+  (* decShareChallenge: hash of X, the encrypted share, the decrypted share V,
+     vG, vH (in this order) *)
+  Definition dec_challenge (X xS V vG vH : point) : F := Hc [X; xS; V; vG; vH].
+
+  (* DecShare: verify, V = x^-1 * S.V, proof of log_G X = log_V xS built in
+     place with the challenge covering V; [v] = picked scalar *)
   Definition dec_share (H X sH : point) (x expC : F) (e : pvshare) (v : F) : verdict + pvshare :=
     match verify_enc_share H X sH expC e with
     | VOk =>
         let V := smul (zinv x) (sV e) in
-        inr (mkShare (sI e) V (fst (fst (dleq_prove pbase V x v))))
+        let vG := smul v pbase in
+        let vH := smul v V in
+        inr (mkShare (sI e) V (dleq_proof_c pbase V x v (dec_challenge X (sV e) V vG vH)))
     | bad => inl bad
     end.
 
@@ -197,8 +204,16 @@ Section PVSS.
          | None => None
          end.
 
-  (* VerifyDecShare (with the index check of the repaired code) *)
+  (* VerifyDecShare (repaired code: index check; challenge recomputed over
+     X, xS, V, VG, VH) *)
   Definition verify_dec_share (G X : point) (e d : pvshare) : verdict :=
+    if negb (sI d =? sI e) then VIndex
+    else if negb (zeqb (pC (sP d)) (dec_challenge X (sV e) (sV d) (pVG (sP d)) (pVH (sP d)))) then VChallenge
+    else if dleq_verify (sP d) G (sV d) X (sV e) then VOk else VProof.
+
+  (* VerifyDecShare before the repair: the challenge did not cover the
+     decrypted share V (a base point of the statement chosen by the prover) *)
+  Definition verify_dec_share_unrepaired (G X : point) (e d : pvshare) : verdict :=
     if negb (sI d =? sI e) then VIndex
     else if negb (zeqb (pC (sP d)) (Hc [X; sV e; pVG (sP d); pVH (sP d)])) then VChallenge
     else if dleq_verify (sP d) G (sV d) X (sV e) then VOk else VProof.
@@ -255,7 +270,9 @@ Arguments verify_enc_share_batch {q} Hc H X sH polyComs enc.
 Arguments dec_share {q} Hc H X sH x expC e v.
 Arguments dec_share_batch_go {q} Hc H x rows vs acc.
 Arguments dec_share_batch {q} Hc H X sH x gcs enc vs.
+Arguments dec_challenge {q} Hc X xS V vG vH.
 Arguments verify_dec_share {q} Hc G X e d.
+Arguments verify_dec_share_unrepaired {q} Hc G X e d.
 Arguments dec_batch_step {q} Hc G acc r.
 Arguments verify_dec_share_batch {q} Hc G X enc dec.
 Arguments to_entry {q} d.
